@@ -7,7 +7,7 @@
    function of the state and the call, and the one place where Go iterates a map with an
    observable effect (Workflow.compile) takes the order as an argument [ord] over which
    the theorems quantify.  Only statements, each closed by [exact]. *)
-From Eino Require Import Base.Util Model.Builder Proofs.Builder Proofs.BuilderReject.
+From Eino Require Import Base.Util Model.Builder Proofs.Builder Proofs.BuilderReject Proofs.BuilderDag Proofs.BuilderSound Proofs.BuilderReject2.
 Local Open Scope string_scope.
 Local Open Scope list_scope.
 
@@ -34,7 +34,7 @@ Print Assumptions first_error_sticks.
 Example first_error_sticks_nonvacuous :
   run_calls (gstep fixed) (g_init CGraph false)
     [GAddNode "a" NLambda false false; GAddNode "a" NLambda false false; GAddEdge START "a"; GCompile opt_default]
-  = (set_err (Some EDupNode) (set_nodes [("a", mkNode NLambda true true)] (g_init CGraph false)),
+  = (set_err (Some EDupNode) (set_nodes [("a", mkNode NLambda true true false)] (g_init CGraph false)),
      [OOk; OErr EDupNode; OErr EDupNode; OErr EDupNode]).
 Proof. vm_compute. reflexivity. Qed.
 
@@ -84,6 +84,40 @@ Example rejects_cycle_nonvacuous :
                     [(START, "a"); ("a", "b"); ("b", "a"); ("b", END_)] [] false false 12%Z (Some []))].
 Proof. vm_compute. reflexivity. Qed.
 
+(* rejects_each_kind, continued: the violations a Chain / Workflow only meets when Compile makes
+   the deferred graph calls.  In every state and for every visiting order [ord]:
+   1. a Chain Compile with a trigger-mode option fails;
+   2. a Workflow Compile with a trigger-mode option or a step limit fails;
+   3. a Workflow with a deferred AddBranch from END, from an unknown node or with a single target
+      fails to compile;
+   4. a Workflow node that still carries an input declared from a node that was never added makes
+      Compile fail;
+   [g_cmp] is CChain / CWorkflow in every state reachable from NewChain / NewWorkflow. *)
+Theorem rejects_deferred :
+  (forall c o, g_cmp (c_g c) = CChain -> o_trigger o <> None -> is_err (snd (cstep fixed c (CCompile o))))
+  /\ (forall w o ord, g_cmp (w_g w) = CWorkflow -> (o_trigger o <> None \/ (0 < o_max_steps o)%Z) ->
+        is_err (snd (wstep fixed w (WCompile o ord))))
+  /\ (forall w o ord, g_compiled (w_g w) = false ->
+        (exists b, In b (w_branches w) /\ bad_branch_call (w_g w) b) ->
+        is_err (snd (wstep fixed w (WCompile o ord))))
+  /\ (forall w o ord k n i,
+        alist_get k (w_nodes w) = Some n -> In i (wn_pending n) -> unknown_source (w_g w) i ->
+        is_err (snd (wstep fixed w (WCompile o ord))))
+  /\ ((forall v st cs, g_cmp (c_g (final (cstep v) (c_init st) cs)) = CChain)
+      /\ (forall v st cs, g_cmp (w_g (final (wstep v) (w_init st) cs)) = CWorkflow)).
+Proof.
+  exact (conj chain_rejects_trigger_option (conj w_compile_rejects_option
+        (conj workflow_rejects_bad_branch_call (conj workflow_rejects_unknown_input_source reachable_cmp)))).
+Qed.
+Print Assumptions rejects_deferred.
+
+Example rejects_deferred_nonvacuous :
+  (let w := final (wstep fixed) (w_init false) wf_unknown_input in
+   exists n i, alist_get "a" (w_nodes w) = Some n /\ In i (wn_pending n) /\ unknown_source (w_g w) i)
+  /\ snd (wstep fixed (final (wstep fixed) (w_init false) wf_unknown_input) (WCompile opt_default []))
+     = OErr EEdgeStartUnknown.
+Proof. exact (conj wf_unknown_input_hyp wf_unknown_input_rejected). Qed.
+
 (* ------------------------------------------------------------------ no_modification_after_compile *)
 (* After a successful Compile: a Graph refuses every Add* with the compiled error and no
    call changes its state; no call changes a Chain's graph, and an Append* is answered by
@@ -123,6 +157,72 @@ Example runner_unaffected_nonvacuous :
   | None => False
   end.
 Proof. exact wf_compile_twice_fixed. Qed.
+
+(* ------------------------------------------------------------------ compile_sound (stretch) *)
+(* Soundness of acceptance.  Whatever calls were made before it, on any of the three
+   front-ends and for every map order, a Compile that succeeds returns a runner built
+   from a WELL-FORMED graph ([well_formed], Proofs/BuilderSound.v): node keys distinct and
+   not reserved; every edge and branch between known nodes (START only as a source, END
+   only as a target); no duplicate control or data edge; no branch with a single target;
+   a node with a state handler only in a graph with state; an edge or branch out of START
+   and one into END; every pass-through type inferred; no duplicate mapping target; no
+   invalid sub graph; no trigger-mode option on a Chain / Workflow; no step limit in
+   all-predecessor mode; and in all-predecessor mode a topological order of all nodes
+   w.r.t. the control edges and branch targets (no cycle).  [runner_of]: the runner's node
+   table, edges, branches and mode are the graph's. *)
+Theorem compile_sound :
+  (forall st cs o g1 r,
+      gstep fixed (final (gstep fixed) (g_init CGraph st) cs) (GCompile o) = (g1, OCompiled r) ->
+      well_formed g1 o /\ runner_of g1 o r)
+  /\ (forall st cs o c1 r,
+      cstep fixed (final (cstep fixed) (c_init st) cs) (CCompile o) = (c1, OCompiled r) ->
+      well_formed (c_g c1) o /\ runner_of (c_g c1) o r)
+  /\ (forall st cs o ord w1 r,
+      wstep fixed (final (wstep fixed) (w_init st) cs) (WCompile o ord) = (w1, OCompiled r) ->
+      well_formed (w_g w1) o /\ runner_of (w_g w1) o r).
+Proof. exact (conj graph_compile_sound (conj chain_compile_sound workflow_compile_sound)). Qed.
+Print Assumptions compile_sound.
+
+Example compile_sound_nonvacuous :
+  exists g1 r, gstep fixed (final (gstep fixed) (g_init CGraph false) sound_example) (GCompile (mkOpt (Some true) 0%Z))
+               = (g1, OCompiled r) /\ r_dag r = true /\ List.length (r_nodes r) = 3%nat.
+Proof. exact sound_example_compiles. Qed.
+
+(* the structural invariant [ginv] behind it holds in every state any call sequence of any
+   version can produce *)
+Theorem builder_invariant :
+  (forall v st cs, ginv (final (gstep v) (g_init CGraph st) cs))
+  /\ (forall v st cs, ginv (c_g (final (cstep v) (c_init st) cs)))
+  /\ (forall v st cs, ginv (w_g (final (wstep v) (w_init st) cs))).
+Proof. exact reachable_ginv. Qed.
+Print Assumptions builder_invariant.
+
+(* validateDAG (the counter algorithm of graph.go, sweeping a Go map): on every state that
+   satisfies the invariant it accepts exactly when a topological order of the nodes exists,
+   and every run of the algorithm — the nodes fired in ANY order, until none is ready —
+   ends with the verdict of the model's run (determinism under map iteration). *)
+Theorem validateDAG_sound :
+  forall g, ginv g -> validate_dag g = true -> exists order, topo (ctrl_pairs g) (keys g) order.
+Proof. exact validate_dag_sound. Qed.
+Print Assumptions validateDAG_sound.
+
+Theorem validateDAG_complete :
+  forall g, ginv g -> (exists order, topo (ctrl_pairs g) (keys g) order) -> validate_dag g = true.
+Proof. exact validate_dag_complete. Qed.
+Print Assumptions validateDAG_complete.
+
+Theorem validateDAG_order_independent :
+  forall g m, ginv g ->
+    reach (ctrl_pairs g) (keys g) (init (ctrl_pairs g) (keys g)) m -> stable (keys g) m ->
+    accepted m = validate_dag g.
+Proof. exact validate_dag_any_order. Qed.
+Print Assumptions validateDAG_order_independent.
+
+Example validateDAG_order_independent_nonvacuous :
+  forall g, ginv g ->
+    reach (ctrl_pairs g) (keys g) (init (ctrl_pairs g) (keys g)) (dag_final (ctrl_pairs g) (keys g)) /\
+    stable (keys g) (dag_final (ctrl_pairs g) (keys g)).
+Proof. exact any_order_example. Qed.
 
 (* ------------------------------------------------------------------ the repaired defects *)
 (* F-C20a: on the original code a Workflow branch to a node that was never added made
